@@ -7,4 +7,6 @@ require (
 	gopkg.in/yaml.v2 v2.4.0
 )
 
+require github.com/osteele/tuesday v1.0.3 // indirect
+
 replace github.com/osteele/liquid => /repo
